@@ -33,6 +33,7 @@ def parse_states(lines):
 @register
 class C01(NlpCheck):
     pid = "C01"
+    uses_generated = True
     slices = ["shooting-dynamic-rows", "sampled-states", "discrete_system()"]
     tags = ("dyn",)
     profiles = [
@@ -243,6 +244,7 @@ OBJK = ['at_tf', 'at_t0', 'integral', 'sum', 'sum_plus', 'int_control']
 @register
 class C05(NlpCheck):
     pid = "C05"
+    uses_generated = True
     slices = ["objective-all-methods", "colloc-integrates-constants", "sol.value(objective)-vs-solver"]
     tags = ()
     want_f = True
@@ -1273,6 +1275,7 @@ class C07(SampleCheck):
 @register
 class C08(SampleCheck):
     pid = "C08"
+    uses_generated = True
     slices = ["refined-sampling", "nesting-on-the-implementation", "sampler", "low-degree-exactness"]
 
     def explanation(self):
